@@ -59,6 +59,9 @@ pub struct Case {
     pub key_start: u16,
     pub yield_seed: u64,
     pub threads: Vec<Vec<TOp>>,
+    /// the requests go over HTTP to the real daemon (its own worker and scheduler threads), see `c18d.rs`
+    #[serde(default)]
+    pub daemon: bool,
 }
 
 fn top() -> impl Strategy<Value = TOp> {
@@ -453,13 +456,20 @@ impl Prop for C18 {
             Tier::Quick => 3..14usize,
             Tier::Thorough => 5..30usize,
         };
-        (prop_oneof![2 => Just(false), 1 => Just(true)], any::<u16>(), any::<u64>(), vec(vec(top(), len), 2..6))
-            .prop_map(|(disk, key_start, yield_seed, threads)| Case { disk, key_start, yield_seed, threads })
+        (prop_oneof![2 => Just(false), 1 => Just(true)], any::<u16>(), any::<u64>(), vec(vec(top(), len), 2..6), prop_oneof![9 => Just(false), 1 => Just(true)])
+            .prop_map(|(disk, key_start, yield_seed, threads, daemon)| Case { disk, key_start, yield_seed, threads, daemon })
             .boxed()
     }
 
     fn run(case: &Case, _ctx: &Ctx) -> Outcome {
-        match run_case(case) {
+        // KVH_C18_DAEMON=1 / 0 forces all cases of a run into one part (for experiments)
+        let daemon = match std::env::var("KVH_C18_DAEMON").ok().as_deref() {
+            Some("1") => true,
+            Some("0") => false,
+            _ => case.daemon,
+        };
+        let res = if daemon { super::c18d::run_case_daemon(case) } else { run_case(case) };
+        match res {
             Err(e) => Outcome::Harness(e),
             Ok(Err((clause, key, msg))) => Outcome::Violation { clause, key, msg },
             Ok(Ok(classes)) => {
@@ -471,7 +481,7 @@ impl Prop for C18 {
     }
 
     fn sample(case: &Case) -> serde_json::Value {
-        serde_json::json!({"disk": case.disk, "threads": case.threads.iter().map(|t| t.len()).collect::<Vec<_>>()})
+        serde_json::json!({"disk": case.disk, "daemon": case.daemon, "threads": case.threads.iter().map(|t| t.len()).collect::<Vec<_>>()})
     }
 
     fn shrink_budget() -> usize {
